@@ -6,6 +6,7 @@ import itertools
 import common
 import graphs
 import c09_groupby
+import c09_repartition
 from e2e import try_, STAGES
 
 
@@ -128,13 +129,20 @@ def run(run):
                 "groupby family (c09_groupby.py): receiver x grouping-key kind (labels / Series expressions / mixtures) x every reduction, agg spec "
                 "(decomposable, 'median', mixed, custom) and non-reducing route x split_out / split_every / shuffle_method / sort / dropna / observed x "
                 "partition counts x missing values, and pairs of groupbys over one source, at {unoptimized, fuse off, fuse on} (+ 5 stages in the thorough tier); "
-                "all graphs additionally scanned through partials / sets / closures and pickled by value (cloudpickle) under dask-expr-no-serialize")
+                "all graphs additionally scanned through partials / sets / closures and pickled by value (cloudpickle) under dask-expr-no-serialize; "
+                "repartition family (c09_repartition.py): explicit partition layouts (every big/small pattern of 2..4 partitions, very big / medium / empty "
+                "partitions) x source kind (from_map / from_delayed with and without divisions, concat, from_pandas, repartitioned, filtered) x index dtype x "
+                "column dtypes x missing values x frame / series x request (partition_size between / below / above / far below the partition sizes, "
+                "npartitions fewer / equal / more, divisions with reused boundaries and force, freq, chains of two) x consumer (projection, filter, "
+                "element-wise, reduction, cumulative, partition selection, head / tail, map_partitions, alignment with the source) and pairs of "
+                "repartitions of one source, at {unoptimized, fuse off, fuse on} (+ 5 stages in the thorough tier); output keys must be exactly "
+                "(name, 0..npartitions-1); a plan that lowers but whose graph cannot be materialized is a violation")
     run.proofs("PropC09.v")
     quick = run.tier == "quick"
     m = common.Model()
     reqs, tags = [], []
     n = 0
-    for item in itertools.chain(plans(run, rt, quick), c09_groupby.plans(run, rt, quick)):
+    for item in itertools.chain(plans(run, rt, quick), c09_groupby.plans(run, rt, quick), c09_repartition.plans(run, rt, quick)):
         tag, e = item[0], item[1]
         case = dict(item[2], tag=tag) if len(item) > 2 else {"kind": "graph", "tag": tag}      # family cases: parameters to rebuild the plan
         info = try_(lambda: graphs.analyse(e))
@@ -147,6 +155,9 @@ def run(run):
         run.count(("graph", tag), nontrivial=info["nkeys"] >= 4)
         for p in info["problems"]:
             run.violation("%s [%s]" % (p, tag), dict(case, problem=p))
+        if str(case.get("kind", "")).startswith("repartition-family"):
+            for p in c09_repartition.extra_problems(e, info):
+                run.violation("%s [%s]" % (p, tag), dict(case, problem=p))
         ser = graphs.serializable(info["graph"])
         if ser:
             run.violation("graph cannot be serialized without serializing an expression: %s [%s]" % (ser, tag), case)
@@ -168,20 +179,23 @@ def run(run):
 
 
 def replay(path):
-    """./check C09 --replay file: re-examines the graph of a groupby-family case (the other kinds of cases are identified by their tag only)."""
+    """./check C09 --replay file: re-examines the graph of a groupby-family / repartition-family case (the other kinds of cases are identified by their tag only)."""
     import json
     import rt
     import e2e
     case = json.load(open(path)).get("case") or {}
-    if case.get("kind") not in ("groupby-family", "groupby-family-pair"):
-        print("C09 replay: only groupby-family cases can be rebuilt from the replay file; this one is identified by its tag: %s" % case.get("tag"))
+    if case.get("kind") not in ("groupby-family", "groupby-family-pair", "repartition-family", "repartition-family-pair"):
+        print("C09 replay: only groupby-family / repartition-family cases can be rebuilt from the replay file; this one is identified by its tag: %s" % case.get("tag"))
         return 2
-    coll = c09_groupby.build(case, rt.dx)
+    family = c09_repartition if case["kind"].startswith("repartition") else c09_groupby
+    coll = family.build(case, rt.dx)
     st = case.get("stage", "unoptimized")
     e = (coll.expr.lower_completely() if st == "unoptimized" else coll.optimize(fuse=(st == "fuse=True")).expr if st.startswith("fuse=")
          else e2e.stage_expr(coll.expr, st))
     info = graphs.analyse(e)
     problems = list(info["problems"])
+    if family is c09_repartition:
+        problems += c09_repartition.extra_problems(e, info)
     ser = graphs.serializable(info["graph"])
     if ser:
         problems.append("graph cannot be serialized without serializing an expression: %s" % ser)
